@@ -3,23 +3,36 @@ package main
 import (
 	"fmt"
 
+	"github.com/thanos-community/promql-engine/verifshim"
+
 	"verif/harness/core"
+	"verif/harness/explore"
 	"verif/harness/gen"
+	"verif/harness/mstore"
 )
 
 func main() {
-	cs := &core.Case{Q: `stdvar(a or b)`, Data: gen.Dataset("D1"), W: core.Range(10000, 30000, 3), O: core.Opts{Optimizers: "none", Fallback: true}}
-	st, _ := core.BuildStore(cs.Data)
-	for i := 0; i < 3; i++ {
-		r := core.RunRef(cs, st)
-		fmt.Println("ref     ", r.Series[0].Points)
-	}
-	for i := 0; i < 3; i++ {
-		o := core.RunEngine(cs, st)
-		fmt.Println("fallback", o.IsPromQuery, o.Res.Series[0].Points)
-	}
-	for i := 0; i < 3; i++ {
-		r := core.RunRef(cs, st)
-		fmt.Println("ref     ", r.Series[0].Points)
+	verifshim.SetControlled(true)
+	for _, nth := range []int{5, 15, 25, 31, 35} {
+		cs := core.Case{Q: `a`, Data: gen.SchedData(43), W: core.Range(10000, 30000, 41), O: core.Opts{Procs: 2, Optimizers: "none"},
+			Faults: []mstore.Fault{{Kind: "seek", Series: 0, Nth: nth, Action: "error"}}}
+		sc := &explore.Scenario{Name: "x", Case: cs}
+		o := explore.RunOnce(sc, explore.Sched{EventStep: -1})
+		fmt.Println("nth", nth, "fired", o.Fired, "err", o.ExecErr, "steps", len(o.Run.Trace), "points", o.Res.NPoints())
+		if nth == 31 {
+			lost := 0
+			n := 0
+			for i, st := range o.Run.Trace {
+				for alt := 1; alt < int(st.NAlt); alt++ {
+					o2 := explore.RunOnce(sc, explore.Sched{EventStep: -1, Devs: []explore.Dev{{Step: i, Alt: alt}}})
+					n++
+					if len(o2.Fired) > 0 && o2.ExecErr == nil {
+						lost++
+						fmt.Println("  LOST at dev", i, alt, "points", o2.Res.NPoints())
+					}
+				}
+			}
+			fmt.Println("  D=1 schedules", n, "lost", lost)
+		}
 	}
 }
